@@ -156,6 +156,14 @@ class Sym:
                         if ch is not None and self.closure_is_rec(inner["args"][0]):
                             return ("first_some", ch)
                 return ("opaque", "next() on unrecognised iterator")
+            if name == "find_map" and e["args"]:
+                # `iter().find_map(f)` is `iter().filter_map(f).next()`
+                it = peel(recv)
+                if it.get("k") == "mcall" and it["name"] == "iter":
+                    ch = self.child_of(it["recv"])
+                    if ch is not None and self.closure_is_rec(e["args"][0]):
+                        return ("first_some", ch)
+                return ("opaque", "find_map on unrecognised iterator")
             if name == "is_some_and" and e["args"]:
                 inner = peel(recv)
                 if inner.get("k") == "mcall" and inner["name"] == "first":
@@ -208,6 +216,24 @@ class Sym:
                 sc = peel(e["scrut"])
                 inner = sc["args"][0] if sc.get("k") == "call" and sc.get("args") else sc
                 return ("try", self.ev(inner))
+            # `match xs.first() { Some(x) => f(x), None => false }` is `xs.first().is_some_and(f)`
+            sc = peel(e["scrut"])
+            if sc.get("k") == "mcall" and sc.get("name") == "first" and len(e["arms"]) == 2 and not any(a.get("guard") for a in e["arms"]):
+                ch = self.child_of(sc["recv"])
+                shapes = {pat_shape(a["pat"])[0] if isinstance(pat_shape(a["pat"]), tuple) else None: a for a in e["arms"]}
+                some_arm = next((a for a in e["arms"] if str(pat_shape(a["pat"])[0]).endswith("Some")), None)
+                none_arm = next((a for a in e["arms"] if a is not some_arm), None)
+                if ch is not None and some_arm is not None and none_arm is not None:
+                    nb = self.ev(none_arm["body"])
+                    bname = None
+                    pp = some_arm["pat"].get("pats") or []
+                    if len(pp) == 1:
+                        bname = bind_name(pp[0])
+                    body_ = peel(some_arm["body"])
+                    is_rec = body_.get("k") == "call" and self.is_self_fn((body_.get("callee") or {}).get("path", "")) and len(body_.get("args") or []) >= 1 \
+                        and peel(body_["args"][0]).get("k") == "path" and peel(body_["args"][0]).get("res", {}).get("name") == bname and bname
+                    if is_rec and nb == ("const", False):
+                        return ("first_rec", ch)
             return ("match", self.ev(e["scrut"]), [(pat_shape(a["pat"]), self.ev(a["guard"]) if a.get("guard") else None,
                                                      self.ev(a["body"])) for a in e["arms"]])
         if k == "tup":
